@@ -55,6 +55,7 @@ class ProgressIndicator(object):
 
         self._auto_running = None
         self._auto_thread = None
+        self._lock = threading.RLock()
 
         self._start_time = None
         self._last_message_length = 0
@@ -150,11 +151,16 @@ class ProgressIndicator(object):
         if self._io.is_quiet():
             return
 
-        self._overwrite(
-            re.sub(
-                r"(?i){([a-z\-_]+)(?::([^}]+))?}", self._overwrite_callback, self._fmt
+        # A frame is written in two steps (erase, then text): the spinner
+        # thread and the caller must not interleave them
+        with self._lock:
+            self._overwrite(
+                re.sub(
+                    r"(?i){([a-z\-_]+)(?::([^}]+))?}",
+                    self._overwrite_callback,
+                    self._fmt,
+                )
             )
-        )
 
     def _overwrite_callback(self, matches):
         if hasattr(self, "_formatter_{}".format(matches.group(1))):
